@@ -8,6 +8,9 @@
       functions of the SET / the multiset of siblings: invariant under every permutation;
     * typedef-before-struct and struct-before-typedef build the same record;
     * the block dictionary is independent of block / file order;
+    * the loop of `IntrospectablePass.validate` (which aliases and callables end up
+      introspectable="0") reaches the greatest stable state, the same for every order in which
+      the namespace is walked, i.e. for every order of the declarations;
     * `decide` theorems pin the list of sort sites, of unsorted list emissions and of set
       iterations of the sources (regenerated from /repo on every run) to the lists the model
       was written for.
